@@ -220,6 +220,18 @@ func C13(c *core.Ctx, replay string) {
 		vecs = append(vecs, v)
 	}
 	c.Exhaustive = true
+	if replay != "" {
+		var rl struct {
+			Size int64  `json:"size"`
+			R    rangeR `json:"r"`
+		}
+		if err := core.LoadReplayCase(replay, &rl); err != nil {
+			c.Inconclusive("replay: %v", err)
+			return
+		}
+		vecs = []rangeVec{{Size: rl.Size, R: rl.R}}
+		c.Exhaustive = false
+	}
 
 	env := MustEnv(c, false, false, nil)
 	if env == nil {
@@ -299,6 +311,9 @@ func C13(c *core.Ctx, replay string) {
 	}
 	// thorough / code->spec direction: random large cases validated as a trace
 	nrand := c.Pick(300, 6000)
+	if replay != "" {
+		nrand = 0
+	}
 	sizes := []int64{1, 2, 7, 100, 4095, 4096, 4097, 32767, 32768, 32769, 65537}
 	kinds := []string{"ab", "ab", "ab", "a_", "a_", "_n", "ws", "multi", "neg", "dbl", "tailjunk"}
 	for i := 0; i < nrand; i++ {
